@@ -374,6 +374,7 @@ Section MuxProofs.
     match ops with
     | [] => True
     | OpBlock _ p b :: r => path_ok base b p /\ ops_ok base r
+    | OpStale _ _ :: _ => False     (* histories with failed rounds: see [ops_ok_from] *)
     | _ :: r => ops_ok base r
     end.
 
@@ -401,7 +402,7 @@ Section MuxProofs.
   Proof.
     intros Hnd. induction ops as [|o r IH]; intros n cs outs Hc Hp Hok.
     - reflexivity.
-    - destruct o as [p b|raw|raw|]; cbn [fold_left step blocks_of ops_ok] in *.
+    - destruct o as [p b|raw|raw| |st]; cbn [fold_left step blocks_of ops_ok] in *; [| | | |contradiction].
       + destruct Hok as [Hok1 Hok]. unfold spec_run. cbn [fold_left spec_step].
         pose proof (path_reference p n b base Hc Hok1) as Hr.
         pose proof (reference_canonical base (path_cfg p n) cfg0 (path_regs p n) base (n_committed S n) b Hnd) as Hcan.
@@ -460,9 +461,9 @@ Section MuxProofs.
     end.
 
   Lemma only_blocks_blocks ops : blocks_of S (only_blocks ops) = blocks_of S ops.
-  Proof. induction ops as [|[p b|raw|raw|] r IH]; cbn [only_blocks blocks_of]; congruence. Qed.
+  Proof. induction ops as [|[p b|raw|raw| |st] r IH]; cbn [only_blocks blocks_of]; congruence. Qed.
   Lemma only_blocks_ok base ops : ops_ok base ops -> ops_ok base (only_blocks ops).
-  Proof. induction ops as [|[p b|raw|raw|] r IH]; cbn [only_blocks ops_ok]; tauto. Qed.
+  Proof. induction ops as [|[p b|raw|raw| |st] r IH]; cbn [only_blocks ops_ok]; tauto. Qed.
 
   Theorem check_does_not_touch_delivery_state base n ops :
     NoDup (map (a_name S) base) -> Permutation base (n_apps S n) -> n_cache S n = None -> ops_ok base ops ->
@@ -701,6 +702,109 @@ Section MuxProofs.
       rewrite (path_reference (RestartThenProcess S cfg regs) (mkNode S (n_committed S m) None (n_cfg S m) (n_apps S m)) b base eq_refl Hok).
       cbn [path_cfg path_regs n_cfg n_apps n_committed]. rewrite Ha. reflexivity.
   Qed.
+
+  (* ---- histories with failed rounds ---- *)
+  (* one block on a node whose cache satisfies the invariant *)
+  Lemma run_path_inv base p n b :
+    cache_inv n -> path_ok base b p -> b_hash b <> [] -> commit_as_prepared n b ->
+    run_path S p n b = reference (path_cfg p n) (path_regs p n) (n_committed S n) b \/ collision.
+  Proof.
+    intros Hinv Hok Hne Hcm.
+    destruct p as [key cands| | |cfg regs|cfg regs].
+    - left. rewrite run_path_cache_irrelevant by exact I.
+      rewrite (path_reference (ProposeCached S key cands) (mkNode S (n_committed S n) None (n_cfg S n) (n_apps S n)) b base eq_refl Hok).
+      reflexivity.
+    - cbn [run_path path_cfg path_regs].
+      destruct (process_proposal S n b) as [m'|] eqn:Ep.
+      + destruct (process_proposal_inv n b m' Hinv Hcm Ep) as (Hinv' & (Ha' & Hb' & Hc') & c & Hcache & Hhash & Hex).
+        left. unfold finalize, snapshot, reference. rewrite Hcache. cbn [option_map begin_reuses].
+        destruct (Hinv' c Hcache) as (Hexd & _). rewrite Hhash, bytes_eqb_refl, Hexd. cbn [andb].
+        unfold dispatch in Hex. rewrite Hex. rewrite Hb', Hc'. reflexivity.
+      + left. apply (process_proposal_reject n b Hinv Hcm) in Ep. unfold reference. unfold dispatch in Ep. rewrite Ep. reflexivity.
+    - cbn [run_path path_cfg path_regs]. apply finalize_inv; assumption.
+    - left. rewrite run_path_cache_irrelevant by exact I.
+      rewrite (path_reference (RestartThenReplay S cfg regs) (mkNode S (n_committed S n) None (n_cfg S n) (n_apps S n)) b base eq_refl Hok).
+      reflexivity.
+    - left. rewrite run_path_cache_irrelevant by exact I.
+      rewrite (path_reference (RestartThenProcess S cfg regs) (mkNode S (n_committed S n) None (n_cfg S n) (n_apps S n)) b base eq_refl Hok).
+      reflexivity.
+  Qed.
+
+  Definition st_ok (n : node) (st : stale) : Prop :=
+    match st with
+    | StalePrepared key hd _ _ _ => meta_wf key (h_proposer hd)
+    | StaleProcessed b' => commit_as_prepared n b'
+    end.
+
+  (* Well-formed histories with failed rounds.  The conditions on a step refer to the node
+     the step is applied to: honest metadata for own proposals, the commit-info
+     hypothesis wherever a prepared proposal is reused, real (non-empty) block hashes. *)
+  Fixpoint ops_ok_from (base : list mapp) (n : node) (ops : list (op S)) : Prop :=
+    match ops with
+    | [] => True
+    | OpBlock _ p b :: r =>
+      path_ok base b p /\ b_hash b <> [] /\ commit_as_prepared n b /\
+      match run_path S p n b with
+      | Some (n', _) => ops_ok_from base n' r
+      | None => True
+      end
+    | OpStale _ st :: r => st_ok n st /\ ops_ok_from base (apply_stale S n st) r
+    | _ :: r => ops_ok_from base n r
+    end.
+
+  Lemma run_spec_stale cfg0 base ops : NoDup (map (a_name S) base) -> forall n cs outs,
+    cache_inv n -> Permutation base (n_apps S n) -> ops_ok_from base n ops ->
+    observe (fold_left (step S) ops (Some ((n, cs), outs)))
+    = spec_run cfg0 base (n_committed S n) (blocks_of S ops) outs \/ collision.
+  Proof.
+    intros Hnd. induction ops as [|o r IH]; intros n cs outs Hinv Hp Hok.
+    - left. reflexivity.
+    - destruct o as [p b|raw|raw| |st]; cbn [fold_left step blocks_of ops_ok_from] in *.
+      + destruct Hok as (Hok1 & Hne & Hcm & Hrest).
+        destruct (run_path_inv base p n b Hinv Hok1 Hne Hcm) as [Hr|Hcol]; [|right; exact Hcol].
+        unfold spec_run. cbn [fold_left spec_step].
+        assert (Hpr : Permutation base (path_regs p n)) by (destruct p; cbn [path_regs path_ok] in *; assumption).
+        pose proof (reference_canonical base (path_cfg p n) cfg0 (path_regs p n) base (n_committed S n) b Hnd Hpr (Permutation_refl _)) as Hcan.
+        rewrite <- Hr in Hcan.
+        destruct (run_path S p n b) as [[n' o]|] eqn:Erun.
+        * unfold reference in Hr, Hcan.
+          destruct (exec_block S (path_cfg p n) (sort_by (a_name S) (path_regs p n)) false (n_committed S n) b) as [[s1 o1]|]; [|discriminate].
+          inversion Hr; subst n' o; clear Hr.
+          destruct (exec_block S cfg0 (sort_by (a_name S) base) false (n_committed S n) b) as [[s' o']|]; [|discriminate].
+          cbn in Hcan. inversion Hcan; subst.
+          apply (IH (mkNode S s' None (path_cfg p n) (path_regs p n)) s' (outs ++ [o'])).
+          -- intros c Hc. discriminate.
+          -- exact Hpr.
+          -- exact Hrest.
+        * left. unfold reference in Hcan.
+          destruct (exec_block S cfg0 (sort_by (a_name S) base) false (n_committed S n) b) as [[s' o']|]; [discriminate|].
+          rewrite fold_step_none, fold_spec_none. reflexivity.
+      + apply IH; assumption.
+      + apply IH; assumption.
+      + apply IH; assumption.
+      + destruct Hok as [Hst Hrest].
+        destruct (apply_stale_inv n st Hinv Hst) as [Hinv' (Ha & Hb & Hc)].
+        rewrite <- Ha. apply IH; [exact Hinv'| |exact Hrest]. rewrite Hc. exact Hp.
+  Qed.
+
+  (* [replicas_agree] for histories that also contain failed consensus rounds (proposals
+     prepared or processed but never committed), each replica with its own. *)
+  Theorem replicas_agree_with_failed_rounds base n1 n2 ops1 ops2 :
+    NoDup (map (a_name S) base) ->
+    Permutation base (n_apps S n1) -> Permutation base (n_apps S n2) ->
+    n_cache S n1 = None -> n_cache S n2 = None ->
+    n_committed S n1 = n_committed S n2 ->
+    ops_ok_from base n1 ops1 -> ops_ok_from base n2 ops2 ->
+    blocks_of S ops1 = blocks_of S ops2 ->
+    observe (run S n1 ops1) = observe (run S n2 ops2) \/ collision.
+  Proof.
+    intros Hnd Hp1 Hp2 Hc1 Hc2 Hs Ho1 Ho2 Hb. unfold run.
+    assert (Hi1 : cache_inv n1) by (intros c Hc; congruence).
+    assert (Hi2 : cache_inv n2) by (intros c Hc; congruence).
+    destruct (run_spec_stale (n_cfg S n1) base ops1 Hnd n1 (n_committed S n1) [] Hi1 Hp1 Ho1) as [E1|C]; [|right; exact C].
+    destruct (run_spec_stale (n_cfg S n1) base ops2 Hnd n2 (n_committed S n2) [] Hi2 Hp2 Ho2) as [E2|C]; [|right; exact C].
+    left. rewrite E1, E2, Hs, Hb. reflexivity.
+  Qed.
 End MuxProofs.
 
 (* ------------------------------------------------------------------ *)
@@ -854,4 +958,33 @@ Proof.
   split; [discriminate|]. split.
   { intros c Hc Hr. vm_compute in Hc. try discriminate. inversion Hc; subst c. vm_compute in Hr. discriminate. }
   split; vm_compute; reflexivity.
+Qed.
+
+(* Non-vacuity of [replicas_agree_with_failed_rounds]: replica 1 has a failed own round
+   before height 1, replica 2 a failed foreign round; both then commit the same block. *)
+Definition toy_ops_stale1 : list (op toy) :=
+  [OpStale toy (StalePrepared [42] toy_hd [[5; 5]] toy_votes []); OpCheck toy [1; 1];
+   OpBlock toy (ProcessProposal toy) toy_block].
+Definition toy_ops_stale2 : list (op toy) :=
+  [OpStale toy (StaleProcessed (mkBlock toy_hd toy_txs toy_votes [] [7; 7; 7]));
+   OpBlock toy (PlainReplay toy) toy_block].
+Example toy_failed_rounds_hypotheses :
+  ops_ok_from toy toy_base toy_n1 toy_ops_stale1 /\ ops_ok_from toy toy_base toy_n2 toy_ops_stale2 /\
+  blocks_of toy toy_ops_stale1 = blocks_of toy toy_ops_stale2 /\
+  observe toy (run toy toy_n1 toy_ops_stale1) = observe toy (run toy toy_n2 toy_ops_stale2) /\
+  observe toy (run toy toy_n1 toy_ops_stale1) <> None.
+Proof.
+  assert (Hcm : forall n, (forall c, n_cache toy n = Some c -> process_reuses (Some (pc_id toy c)) (b_header toy_block) (b_txs toy_block) (b_misb toy_block) = false) ->
+                commit_as_prepared toy n toy_block).
+  { intros n H c Hc Hr. rewrite (H c Hc) in Hr. discriminate. }
+  split.
+  { cbn [ops_ok_from toy_ops_stale1 st_ok]. split; [apply toy_meta_wf|]. split; [exact I|]. split; [discriminate|].
+    split; [|vm_compute; exact I].
+    apply Hcm. intros c Hc. vm_compute in Hc. inversion Hc; subst c. vm_compute. reflexivity. }
+  split.
+  { cbn [ops_ok_from toy_ops_stale2 st_ok]. split.
+    - intros c Hc. discriminate.
+    - split; [exact I|]. split; [discriminate|]. split; [|vm_compute; exact I].
+      apply Hcm. intros c Hc. vm_compute in Hc. inversion Hc; subst c. vm_compute. reflexivity. }
+  split; [reflexivity|]. vm_compute. split; [reflexivity|discriminate].
 Qed.
